@@ -286,7 +286,7 @@ def c13_run(ctx):
 
 
 def c18_run(ctx):
-    core_run(["MC_steps", "MC_clienttxn", "MC_clienttxnLive", "MC_reaper"], ["GEN_steps", "GEN_tcpA", "GEN_tcpB", "GEN_lifeB", "GEN_clienttxnA", "GEN_clienttxnLA", "GEN_reaperS"])(ctx)
+    core_run(["MC_steps", "MC_clienttxn", "MC_clienttxnLive", "MC_reaper"], ["GEN_steps", "GEN_tcpA", "GEN_tcpB", "GEN_lifeB", "GEN_clienttxnA", "GEN_clienttxnLA", "GEN_reaperS", "GEN_disp_client"])(ctx)
     if not ctx.violations:   # the real client under the random drivers: only "did not crash, did not lock up" is judged here
         n = 30 if ctx.tier == "quick" else 300
         ctx.trace_validate("clientconn", "TestClientConnTrace", None, None, n, alive_only=True)
@@ -400,7 +400,7 @@ PROPS = {
                              "'at once' is read as: at once on a loss-free network, and within one transaction (8 s) when transmissions are lost",
                              "'any number of peers' is not explored (4 peers); with several hundred peers the permission refresh exceeds the server's inbound MTU (observation D13 in DESIGN.md)"]),
     "C15": dict(title="server resources and lifecycle events balance through every teardown", level="model_checking",
-                run=with_ledger_rt(core_run(["MC_life", "MC_tcp", "MC_steps", "MC_resv", "MC_reaper"], ["GEN_lifeA", "GEN_lifeB", "GEN_tcpB", "GEN_steps", "GEN_resv", "GEN_stream", "GEN_reaper", "GEN_reaperS"])),
+                run=with_ledger_rt(core_run(["MC_life", "MC_tcp", "MC_steps", "MC_resv", "MC_reaper"], ["GEN_lifeA", "GEN_lifeB", "GEN_tcpA", "GEN_tcpB", "GEN_steps", "GEN_resv", "GEN_stream", "GEN_reaper", "GEN_reaperS"])),
                 assumptions=BASE_ASSUME + ["after every step the lifecycle callbacks made during the step are compared with the spec's EvDiff (created/deleted events per allocation, permission, channel), "
                                            "the relay sockets handed out by the harness generator with the live allocations (open count, closed at most once)",
                                            "every path ends with Server.Close followed by a two-hour drain: created - deleted must be 0 for every key, AllocationCount 0, every relay socket closed, and no lifecycle event may arrive late (a timer that outlived its allocation); "
